@@ -33,6 +33,8 @@ PLAN = {
     'C08': {'gated': (['batch'], 320, 6000), 'free': (['batch'], 96, 2400), 'model': []},
     'C09': {'gated': (['ctl', 'barrier'], 320, 6000), 'free': (['ctl'], 64, 1200), 'model': ['MC_core']},
     'C10': {'gated': (['cancel', 'batch'], 320, 6000), 'free': (['cancel'], 64, 1200), 'model': ['MC_core']},
+    'C04': {'gated': (['basic', 'multi', 'barrier', 'cancel'], 320, 6000), 'free': (['basic'], 48, 800), 'model': []},
+    'C15': {'gated': (['multi'], 400, 6000), 'free': (['multi'], 32, 600), 'model': []},
     'C16': {'gated': (['basic', 'handle', 'cancel', 'batch'], 320, 6000), 'free': (['basic', 'handle'], 96, 2400), 'model': ['MC_core']},
     'C17': {'gated': (['basic', 'multi', 'cancel', 'ctl'], 320, 6000), 'free': (['basic', 'multi'], 64, 1200), 'model': []},
     'C18': {'gated': (['pool', 'ctl'], 320, 6000), 'free': (['pool'], 64, 1200), 'model': []},
@@ -74,6 +76,61 @@ def run_models(pid, tier, scratch):
                 import tlcsum
                 log('model %s%s: %s\n%s' % (n, ' (liveness)' if lv else '', r.get('violated') or 'TLC error', (tlcsum.summarize(r['out'], 60) or r['out'][-1500:])))
     return out
+
+
+DS_FORMULAS = {'C04': 'C04_', 'C15': 'C15_', 'C17': 'C17_'}
+DS_HARNESS = {'queues': ('internal/queues', ['ds_queues.go', 'ds_queues_rt.go'], '^TestVerifDS$'),
+              'helpers': ('internal/helpers', ['ds_manager.go'], '^TestVerifManager$')}
+
+
+def run_ds(pid, tier, seed, scratch):
+    """data-structure level: TLC on QueueDS / MC_manager, then operation logs of the real structures validated with TraceDS"""
+    import subprocess
+    stats = {'models': [], 'logs': []}
+    found = []
+    for mod, cfg in (('QueueDS', 'MC_fifo'), ('MC_manager', 'MC_manager')):
+        if (pid == 'C04' and cfg == 'MC_manager') or (pid == 'C15' and cfg == 'MC_fifo'):
+            continue
+        r = vlib.run_tlc(mod, os.path.join(SPEC, 'cfg', cfg + '.cfg'), scratch, workers=4, timeout=300, tag=cfg)
+        stats['models'].append({'config': cfg, 'ok': bool(r.get('ok')), 'states': r.get('distinct', 0), 'transitions': r.get('generated', 0), 'violated': r.get('violated')})
+    runs = []
+    if pid in ('C04', 'C17'):
+        runs += [('queues', 'chunked', True, 200 if tier == 'quick' else 3000), ('queues', 'abstract', False, 3 if tier == 'quick' else 24)]
+    if pid in ('C15', 'C17'):
+        runs += [('helpers', 'mgr', False, 1)]
+    bins = {}
+    for pkgkey, mode, chunked, n in runs:
+        pkg, files, test = DS_HARNESS[pkgkey]
+        if pkgkey not in bins:
+            bins[pkgkey] = vlib.build_harness(scratch, pkg=pkg, files=files, name=pkgkey + '.test')
+
+        def once(tag):
+            out = os.path.join(scratch, 'ds-%s-%s.ndjson' % (mode, tag))
+            env = dict(os.environ, VERIF_DS_OUT=out, VERIF_SEED=str(seed), VERIF_DS_N=str(n), VERIF_DS_MODE=mode)
+            p = subprocess.run([bins[pkgkey], '-test.run', test, '-test.timeout', '600s'], env=env, capture_output=True, text=True)
+            if p.returncode != 0:
+                raise Inconclusive('data-structure harness failed:\n' + (p.stdout + p.stderr)[-2000:])
+            cfg = os.path.join(scratch, 'TraceDS-%s-%s.cfg' % (mode, tag))
+            open(cfg, 'w').write('SPECIFICATION TSpec\nCONSTANTS InitCap = 2 MaxCap = 4 Vals = {1} MaxOps = 1000000 Chunked = %s\nCHECK_DEADLOCK FALSE\nINVARIANT Report\nPOSTCONDITION Consumed\n' % ('TRUE' if chunked else 'FALSE'))
+            r = vlib.run_tlc('TraceDS', cfg, scratch, workers=1, env={'TRACE': out}, tag='tds-%s-%s' % (mode, tag), timeout=1500, heap='6g')
+            if not r.get('ok') or 'VERIF-BAD' not in r['out']:
+                raise Inconclusive('TLC (TraceDS) failed:\n' + r['out'][-3000:])
+            tail = r['out'][r['out'].index('VERIF-BAD'):].split('Model checking completed')[0]
+            bad = [(t.group(1), t.group(2), int(t.group(3))) for t in re.finditer(r'<<\s*"(\w+)",\s*"([^"]*)",\s*(\d+)\s*>>', tail)]
+            return bad, r.get('distinct', 0), out
+        bad, nlines, out = once('a')
+        mine = [b for b in bad if b[0].startswith(DS_FORMULAS[pid])]
+        stats['logs'].append({'mode': mode, 'operations': nlines, 'failed_formulas': sorted(set(b[0] for b in mine))})
+        if mine:
+            bad2, _, out2 = once('b')      # reproduce
+            again = [b for b in bad2 if b[0].startswith(DS_FORMULAS[pid])]
+            if again:
+                lines = open(out2).read().split('\n')
+                found.append((again[0][0], {'property': pid, 'formula': again[0][0], 'ds_mode': mode, 'seed': seed, 'line': again[0][2],
+                                            'operations_before': [json.loads(x) for x in lines[max(0, again[0][2] - 12):again[0][2]] if x]}))
+            else:
+                print('INCONCLUSIVE property=%s data-structure formula(s) %s failed once but not on re-execution' % (pid, sorted(set(b[0] for b in mine))), flush=True)
+    return found, stats
 
 
 def gen_obsrun(scratch, invs):
@@ -159,6 +216,15 @@ def check_property(pid, tier, seed):
     try:
         binary = vlib.build_harness(scratch)
         rng = random.Random(seed * 7919 + int(pid[1:]))
+        # ---- data-structure level (QueueDS / TraceDS)
+        if pid in DS_FORMULAS:
+            dsfound, dsstats = run_ds(pid, tier, seed, scratch)
+            cov['data_structures'] = dsstats
+            for f, payload in dsfound:
+                path = vlib.save_replay(pid, payload)
+                violations.append((f, path))
+                print('VIOLATION property=%s replay=%s' % (pid, path), flush=True)
+                log('  formula %s failed on an operation log of the real data structure' % f)
         # ---- programs
         fams, nq, nt = plan['gated']
         n = nq if tier == 'quick' else nt
@@ -257,10 +323,11 @@ def check_property(pid, tier, seed):
         cov['samples'] = [{'program': usable[0]['prog'], 'first_events': [dict((k, v) for k, v in ev.items() if k != 'st') for ev in usable[0]['events'][:12]]}] if usable else []
         cov['formulas'] = invs
         cov['notes'] = notes
-        cov['states'] = sum(m['states'] for m in mres) or max(1, cov['obs_states'])
-        cov['transitions'] = sum(m['transitions'] for m in mres) or max(1, cov['obs_states'])
+        dsm = (cov.get('data_structures') or {}).get('models', [])
+        cov['states'] = sum(m['states'] for m in mres + dsm) or max(1, cov['obs_states'])
+        cov['transitions'] = sum(m['transitions'] for m in mres + dsm) or max(1, cov['obs_states'])
         cov['exhaustive'] = False
-        bad_models = [m for m in mres if not m['ok']]
+        bad_models = [m for m in mres + dsm if not m['ok']]
         for m in bad_models:
             print('INCONCLUSIVE model-violation property=%s config=%s formula=%s (the specification, not the code, failed: no verdict)' % (pid, m['config'], m['violated']), flush=True)
         wall = time.time() - t0
